@@ -6,7 +6,8 @@
              offsets by idx only under idx < len (else Err) from the start pointer of the preallocated vector; the
              vector is never borrowed mutably / reassigned outside freeze; the init loop writes one slot per source
              node; phase 2 only touches per_type_lookup and the lookup builder never reads that field; no NodeRef is
-             dereferenced during phase 1; slots are created initialised (no set_len / MaybeUninit)
+             dereferenced during phase 1; slots are created initialised (no set_len / MaybeUninit); every index range
+             walked in freeze is 0..nodes.len()
   FROZEN     no mutable path to frozen storage: no function takes &mut Schema or returns &mut into it; NodeRef exposes
              only as_ref / Deref; no interior mutability in SchemaNode's transitive field types; Send/Sync impls are
              conditional on T: Sync
